@@ -235,6 +235,31 @@ impl Database {
             (1u64, 2u64)
         };
 
+        // The transaction counters of page zero date from the last checkpoint; what ran after it is
+        // only in the log. Ids used there must not be handed out again (the recovery transaction
+        // would share its id with one of them), transactions that committed there must count as
+        // committed when the recovery transaction takes its snapshot (it could not see, and so not
+        // redo a DELETE or UPDATE of, rows they wrote before the checkpoint), and the others
+        // never committed.
+        {
+            let analysis = pager.run_analysis()?;
+            if let Some(max_seen) = analysis.lsn_chains.keys().max().copied() {
+                if pager.get_last_created_transaction() <= max_seen {
+                    pager.set_last_created_transaction(max_seen + 1);
+                }
+            }
+            if let Some(max_committed) = analysis.needs_redo.iter().max().copied() {
+                if max_committed > pager.get_last_committed_transaction() {
+                    pager.set_last_committed_transaction(max_committed);
+                }
+            }
+            for tid in analysis.lsn_chains.keys() {
+                if !analysis.needs_redo.contains(tid) {
+                    pager.mark_transaction_aborted(*tid);
+                }
+            }
+        }
+
         let pager = SharedPager::from(pager);
 
         // Create catalog with last stored object
